@@ -32,6 +32,15 @@ decoders for requests and for produce / metadata responses, and the property-lev
              instance, so that a re-used id is judged correctly), nothing after a timeout, nothing lost.
              KafkaCorr.tla is the code-shaped model of that lifecycle (tag pool / tag map / timeout / late reply)
              with the same machine in lock-step.
+      stream the same stack over a connection with a send buffer (StreamConn: room / low-water mark / drain;
+             partial writes, a writer blocked mid-frame): large (> 1400 byte) and small produce requests and
+             metadata requests issued from concurrent greenlets before the write blocks, while it is blocked, and
+             in the very instant space frees up (single-callback steps), peer resets mid-write.  Events SSup (what
+             was supplied), SBytes (every chunk of bytes the connection accepted, in order), SClosed, SEnd; the
+             KafkaStreamAbs machine inside KafkaWireTrace frames the received stream into size-prefixed requests
+             and judges each one with ReqCheck / HdrCheck against the one supplied request it carries (found by
+             content), each supplied request at most once; a trailing partial request only if the connection
+             was closed mid-write.
 The response bytes come from the small broker-side encoder below (written from the Kafka protocol guide,
 struct.pack only); they are decoded by the SPEC's decoder inside TLC and compared there with what the real
 code returned.  There is no Python oracle.
@@ -63,6 +72,10 @@ ASSUMPTIONS = [
   'has no cancel); a duplicate answer is only generated while no newer request exists (afterwards no client could '
   'tell it from the answer to the new holder of the id); re-using an id is not judged here (C11), only which '
   'request a reply is handed to; errors other than a value (timeouts) are not constrained by C15',
+  'stream mode: the connection accepts bytes in order (TCP); a send() takes as many bytes as the send buffer has '
+  'room for and blocks at 0; the blocked writer is woken by a loop callback once the free space reaches the '
+  'low-water mark; supplied produce requests are pairwise distinct in (topic, payloads); whether / when a supplied '
+  'request is written at all is not judged (C02/C12), a request cut short by a close / reset mid-write is accepted',
 ]
 RULE = {'C15': 'records generated from VERIF_SEED: topic (ASCII, empty, non-ASCII bytes, long) x partition (int32 '
                'boundaries + random) x acks {-1,0,1,2} x payload list (empty list, empty payloads, 1-64 byte and '
@@ -72,7 +85,10 @@ RULE = {'C15': 'records generated from VERIF_SEED: topic (ASCII, empty, non-ASCI
                'routing runs with 2-6 requests in flight and permuted / missing / unknown replies; late-reply scenarios '
                '(3-9 produce / metadata requests with deadlines of 50-1000 ms or none on one live connection, replies '
                'held past the deadline and released after further requests, permuted, batched, duplicated, unknown '
-               'ids, reply and deadline at the same instant with every small interleaving); ~10 records per '
+               'ids, reply and deadline at the same instant with every small interleaving); stream scenarios (send buffer '
+               'of 64-1000 bytes, low-water mark 1-300, 1250-1700 byte and small produce requests and metadata '
+               'requests from concurrent greenlets around a write that blocks part-way, space freed in pieces of '
+               '100-2000 bytes with 0-3 single callbacks between, resets mid-write); ~10 records per '
                'trace, one class per trace; every trace is non-trivial except header-only ones; distinct by '
                'canonical record list'}
 
@@ -420,6 +436,121 @@ def _late_script(rng, i):
           'chunk': rng.choice([0, 0, 0, 1, 5])}
 
 
+def _stream_script(rng, i):
+  """One live connection with a send buffer (room / low-water mark): large (> 1400 byte) and small produce
+  requests and metadata requests issued from concurrent greenlets at scripted instants relative to a write
+  that stalls part-way.  Ops interpreted by _run_stream:
+    ['req', r, api, topic, partition, acks, payloads, T]  a caller greenlet is spawned (it runs when the loop does)
+    ['room', n]    the send buffer has n free bytes from now on (None: unlimited)
+    ['drain', n]   the peer reads n bytes: space frees up; a blocked writer is woken (by a loop callback) once
+                   the space reaches the low-water mark
+    ['step', k]    run k single callbacks      ['run'] quiesce      ['adv', ms] let time pass
+    ['answer']     the broker answers everything it has received so far
+    ['reset']      the connection is reset by the peer
+  """
+  ops = []
+  st = {'n': 0}
+  topics = [_name(rng, 'ascii') or [116] for _ in range(3)]
+
+  def req(size=None, api=0, T=0):
+    st['n'] += 1
+    r = st['n']
+    marker = list(('s%d-' % r).encode())
+    if api != 0:
+      payloads = []
+    elif size is None:
+      payloads = [marker + _bytes(rng, rng.choice([0, 1, 5, 20, 60]))] + ([_bytes(rng, 3)] if rng.random() < 0.2 else [])
+    elif rng.random() < 0.25:
+      payloads = [marker + _bytes(rng, size // 2), _bytes(rng, size - size // 2)]
+    else:
+      payloads = [marker + _bytes(rng, size)]
+    ops.append(['req', r, api, rng.choice(topics), rng.choice([0, 1, 7, 255, 65536]), rng.choice([-1, 0, 1, 1, 2]),
+                payloads, T])
+
+  def small():
+    req(api=3 if rng.random() < 0.2 else 0)
+
+  def big():
+    return rng.choice([1400, 1450, 1500, 1700])
+
+  room = rng.choice([64, 256, 512, 700, 1000])
+  lowat = rng.choice([1, 1, 1, 64, 300])
+  shape = i % 6
+  # some ordinary traffic first
+  for _ in range(rng.choice([0, 1, 2])):
+    small()
+  ops.append(['run'])
+  if rng.random() < 0.5:
+    ops.append(['answer'])
+    ops.append(['run'])
+  ops.append(['room', room])
+  if shape == 2:
+    # requests handed in at the same instant, before anything is written
+    small()
+    req(big())
+    small()
+    ops.append(['run'])
+  else:
+    req(big() if shape != 5 else rng.choice([1250, 1300, 1330]))
+    ops.append(['run'])                     # the write is accepted in part and blocks
+  free = rng.choice([100, 150, 200, 400, 400, 800, 2000])
+  k = shape if shape != 2 else rng.choice([0, 1, 3, 4])
+  if k == 0:                                # space frees up in the very instant another caller issues a request
+    small()
+    ops.append(['drain', free])
+    ops.append(['step', rng.choice([1, 1, 2, 3])])
+    if rng.random() < 0.5:
+      small()
+  elif k == 1:                              # ... the other way round
+    ops.append(['drain', free])
+    small()
+    ops.append(['step', rng.choice([1, 2])])
+    if rng.random() < 0.4:
+      small()
+  elif k == 3:                              # while the writer is blocked; space only later
+    small()
+    if rng.random() < 0.5:
+      small()
+    ops.append(['run'])
+    ops.append(['drain', free])
+    ops.append(['step', rng.choice([0, 1, 2])])
+    if rng.random() < 0.5:
+      small()
+  elif k == 4:                              # a second large request queued behind the blocked one, small ones around
+    req(big())
+    ops.append(['step', rng.choice([0, 1, 3])])
+    small()
+    ops.append(['drain', free])
+    small()
+  else:                                     # 5: medium requests (below the single-segment size) and small ones
+    small()
+    ops.append(['drain', free])
+    ops.append(['step', 1])
+    req(rng.choice([600, 1000, 1300]))
+    small()
+  ops.append(['run'])
+  # the peer keeps reading in pieces while more requests come in
+  for _ in range(rng.choice([1, 2, 3])):
+    ops.append(['drain', rng.choice([100, 300, 700, 1500])])
+    if rng.random() < 0.5:
+      ops.append(['step', rng.choice([1, 2])])
+    if rng.random() < 0.5 and st['n'] < 8:
+      small()
+    if rng.random() < 0.3:
+      ops.append(['run'])
+  if i % 11 == 7:
+    ops.append(['reset'])
+    ops.append(['run'])
+  ops.append(['drain', None])
+  ops.append(['run'])
+  ops.append(['answer'])
+  ops.append(['run'])
+  if rng.random() < 0.5:
+    small()
+    ops.append(['run'])
+  return {'mode': 'stream', 'cls': 'stream', 'ops': ops, 'lowat': lowat, 'tag0': rng.choice([1, 1, 254, 65534])}
+
+
 def cases(prop, tier, seed):
   rng = random.Random(104729 * int(seed) + 15)
   mult = 1 if tier == 'quick' else 4       # thorough: 4x the traces, 3x the records per trace
@@ -460,6 +591,9 @@ def cases(prop, tier, seed):
   lrng = random.Random(7919 * int(seed) + 1515)
   for c in range(90 * (1 if tier == 'quick' else 10)):
     out.append(_late_script(lrng, c))
+  srng = random.Random(6151 * int(seed) + 1516)
+  for c in range(60 * (1 if tier == 'quick' else 8)):
+    out.append(_stream_script(srng, c))
   return out
 
 
@@ -1128,6 +1262,225 @@ def _run_late(script, loop):
                   errors=[repr(x[1:3])[:200] for x in loop.errors][:3])
 
 
+def _stream_conn_class(simnet):
+  """SimConn with a send buffer: send() accepts at most `room` bytes (None: unlimited) and blocks while there is
+  no room; drain(n) (the peer reads n bytes) frees space and, once it reaches the low-water mark `lowat`, wakes
+  the blocked writer by a loop callback, as an io watcher would.  A second writer blocking on the same socket
+  gets gevent's ConcurrentObjectUseError (SimConn._park)."""
+  import errno
+
+  class StreamConn(simnet.SimConn):
+    def __init__(self, net, family=None, type_=None):
+      self.room = None
+      self.lowat = 1
+      self.on_accept = None
+      self.on_closed = None
+      self.send_failed = False
+      self.blocked_sends = 0
+      self.partial_sends = 0
+      simnet.SimConn.__init__(self, net, family, type_)
+
+    def send(self, data):
+      data = bytes(data)
+      self._check_open()
+      if not self.connected:
+        self.net._log('send_unusable', self)
+        raise OSError(errno.ENOTCONN, 'Transport endpoint is not connected (simulated)')
+      self.opn += 1
+      while True:
+        if self.tx_err is not None:
+          self.send_failed = True
+          self.net._log('send_failed', self)
+          raise self.tx_err
+        if self.room is None or self.room > 0:
+          k = len(data) if self.room is None else min(self.room, len(data))
+          if self.room is not None:
+            self.room -= k
+          chunk = data[:k]
+          if k < len(data):
+            self.partial_sends += 1
+          self.sent += chunk
+          self.net._log('send', self, n=k, data=chunk)
+          if self.on_accept is not None:
+            self.on_accept(chunk)
+          self.net._on_send(self, chunk)
+          return k
+        self.net._log('send_stalled', self)
+        self.blocked_sends += 1
+        self._park('send')
+        self._check_open()
+
+    def sendall(self, data):
+      data = bytes(data)
+      while data:
+        k = self.send(data)
+        data = data[k:]
+
+    def _writable(self):
+      if self._is_waiting('send') and (self.room is None or self.room >= max(1, self.lowat) or self.tx_err is not None):
+        self.net.loop.run_callback(self._send_ready)
+
+    def set_room(self, n):
+      self.room = n
+      self._writable()
+
+    def drain(self, n):
+      if n is None or self.room is None:
+        self.room = None
+      else:
+        self.room += n
+      self._writable()
+
+    def feed_error(self, exc=None):
+      simnet.SimConn.feed_error(self, exc)
+      self._writable()
+
+    def close(self):
+      if self.closed:
+        return
+      mid = self._is_waiting('send') or self.send_failed
+      if self.on_closed is not None:
+        self.on_closed(mid)
+      simnet.SimConn.close(self)
+
+  return StreamConn
+
+
+def _run_stream(script, loop):
+  """The byte stream of one live connection: ClientTimeoutSink -> KafkaSerializerSink -> KafkaTransportSink ->
+  VarzSocketWrapper / ScalesSocket over a connection with a send buffer.  Recorded: what was supplied (SSup) and
+  every chunk of bytes the connection accepted, in order (SBytes), SClosed, SEnd."""
+  import gevent
+  from harness.simgevent import simnet, peers
+  import scales.scales_socket as ss
+  from scales.constants import MessageProperties, SinkProperties
+  from scales.message import Deadline, MethodCallMessage
+  from scales.sink import ClientMessageSink, ClientMessageSinkStack, TimeoutSinkProvider
+  from scales.kafka.sink import KafkaEndpoint, KafkaSerializerSink, KafkaTransportSink
+
+  loop.settle()
+  net = simnet.SimNet(loop).install()
+  StreamConn = _stream_conn_class(simnet)
+  ss.gsocket = lambda family=None, type_=None, *a, **kw: StreamConn(net, family, type_)
+  ev = []
+  st = {'closed': False, 'done': 0, 'errors': 0, 'skipped_ops': 0}
+
+  class Broker(peers.KafkaPeer):
+    def __init__(self, net_):
+      peers.KafkaPeer.__init__(self, net_)
+      self.apis = {}
+
+    def on_frame(self, conn, frame):
+      n = len(self.requests)
+      peers.KafkaPeer.on_frame(self, conn, frame)
+      self.apis[n] = struct.unpack('!h', frame[:2])[0] if len(frame) >= 2 else -1
+
+  peer = Broker(net)
+  net.peer_factory = lambda c: peer
+
+  def on_connect_start(conn):
+    if conn.idx != 0:
+      raise RuntimeError('harness: stream mode expects one connection per trace')
+    conn.lowat = script.get('lowat', 1)
+    conn.on_accept = lambda chunk: ev.append({'e': 'SBytes', 'data': list(bytearray(chunk))})
+
+    def on_closed(mid):
+      st['closed'] = True
+      ev.append({'e': 'SClosed', 'mid': 1 if mid else 0})
+    conn.on_closed = on_closed
+  net.on_connect_start = on_connect_start
+
+  tprov = KafkaTransportSink.Builder()
+  sprov = KafkaSerializerSink.Builder()
+  sprov.next_provider = tprov
+  top_prov = TimeoutSinkProvider()
+  top_prov.next_provider = sprov
+  top = top_prov.CreateSink({SinkProperties.Endpoint: KafkaEndpoint('broker', 9092, 0), SinkProperties.Label: 'svc'})
+  open_ar = top.Open()
+  loop.run_until_idle()
+  if not (open_ar.ready() and open_ar.successful()):
+    raise RuntimeError('harness: kafka transport did not open over the simulated network: %r' % (open_ar.exception,))
+  transport = top
+  while not isinstance(transport, KafkaTransportSink):
+    transport = transport.next_sink
+  cid = _client_id(transport)
+  try:
+    transport._tag_pool._next = script.get('tag0', 1)
+  except AttributeError:
+    pass
+  conn = net.conns[0]
+
+  class Terminal(ClientMessageSink):
+    def AsyncProcessRequest(self, *a):
+      raise NotImplementedError()
+
+    def AsyncProcessResponse(self, sink_stack, context, stream, msg):
+      st['done'] += 1
+      if msg is None or getattr(msg, 'error', None) is not None:
+        st['errors'] += 1
+  terminal = Terminal()
+
+  def issue(r, api, topic, partition, acks, payloads, T):
+    if api == 0:
+      msg = _put_msg({'topic': topic, 'partition': partition, 'acks': acks, 'payloads': payloads, 'acks_kw': r % 2 == 0})
+    else:
+      msg = MethodCallMessage(None, '__metadata', [], {})
+      msg.properties[MessageProperties.Endpoint] = None
+    if T:
+      msg.properties[Deadline.KEY] = loop.now() + T / 1000.0
+    stack = ClientMessageSinkStack()
+    stack.Push(terminal, r)
+    ev.append({'e': 'SSup', 'r': r, 'api': api, 'topic': topic, 'partition': partition, 'acks': acks,
+               'payloads': payloads, 'cid': cid})
+
+    def call():
+      try:
+        top.AsyncProcessRequest(stack, msg, None, {})
+      except Exception:
+        st['errors'] += 1
+    gevent.spawn(call)
+
+  for op in script['ops']:
+    k = op[0]
+    if k == 'req':
+      issue(*op[1:])
+    elif k == 'room':
+      conn.set_room(op[1])
+    elif k == 'drain':
+      conn.drain(op[1])
+    elif k == 'step':
+      for _ in range(op[1]):
+        loop.step_callback()
+    elif k == 'run':
+      loop.run_until_idle()
+    elif k == 'adv':
+      loop.run_for(op[1] / 1000.0)
+    elif k == 'answer':
+      for p in peer.unanswered():
+        if p.conn.closed:
+          continue
+        api = peer.apis.get(p.n, -1)
+        if api == 0:
+          peer.release(p, payload=broker_produce_response(p.tag, [])[4:])
+        elif api == 3:
+          peer.release(p, payload=broker_metadata_response(p.tag, [], [])[4:])
+    elif k == 'reset':
+      if not conn.closed:
+        conn.feed_error()
+      else:
+        st['skipped_ops'] += 1
+  if not conn.closed:
+    conn.drain(None)
+  loop.run_until_idle()
+  loop.run_for(2.0)
+  loop.settle()
+  ev.append({'e': 'SEnd'})
+  return ev, {'mode': 'stream', 'blocked_sends': conn.blocked_sends, 'partial_sends': conn.partial_sends,
+              'closed': 1 if st['closed'] else 0, 'completed': st['done'], 'failed': st['errors'],
+              'bytes': len(conn.sent), 'frames_at_broker': len(peer.requests),
+              'errors': [repr(x[1:3])[:200] for x in loop.errors][:3]}
+
+
 def run_case(script):
   loop = common.boot()
   if script['mode'] == 'route':
@@ -1136,6 +1489,8 @@ def run_case(script):
     ev, meta = _run_retry(script, loop)
   elif script['mode'] == 'late':
     ev, meta = _run_late(script, loop)
+  elif script['mode'] == 'stream':
+    ev, meta = _run_stream(script, loop)
   else:
     ev, meta = _run_direct(script, loop)
   return {'cfg': {'mode': script['mode'], 'cls': script.get('cls', '')}, 'ev': ev, 'meta': meta}
@@ -1177,8 +1532,15 @@ def extra_coverage(prop, tier, traces):
     if m.get('mode') == 'late':
       late['scenarios'] = late.get('scenarios', 0) + 1
       for k in ('requests', 'timeouts', 'values', 'late_replies', 'late_after_new_request', 'dups', 'unknown',
-                'at_deadline', 'skipped_ops', 'other_errors'):
+                'at_deadline', 'skipped_ops', 'other_errors', 'id_reuse'):
         late[k] = late.get(k, 0) + int(m.get(k, 0))
-  return {'records': sum(kinds.values()), 'records_by_kind': kinds, 'late_reply_mode': late,
+  stream = {}
+  for t in traces:
+    m = t.get('meta', {})
+    if m.get('mode') == 'stream':
+      stream['scenarios'] = stream.get('scenarios', 0) + 1
+      for k in ('blocked_sends', 'partial_sends', 'closed', 'completed', 'failed', 'bytes', 'frames_at_broker'):
+        stream[k] = stream.get(k, 0) + int(m.get(k, 0))
+  return {'records': sum(kinds.values()), 'records_by_kind': kinds, 'late_reply_mode': late, 'stream_mode': stream,
           'retransmitted_requests_judged': sum(t.get('meta', {}).get('retransmissions', 0) for t in traces), 'payload_bytes_crc_checked': payload_bytes,
           'max_payload': max_payload, 'distinct_correlation_ids': len(corr)}
